@@ -9,6 +9,10 @@ Local Open Scope list_scope.
 Lemma zero_memory_on : MCO_ZERO_MEMORY = true.
 Proof. vm_compute. reflexivity. Qed.
 
+(* the repaired order of coroutine.destroy (minicoro.destroy first, gc:unregister on success) *)
+Lemma destroy_order_fixed : DESTROY_UNREGISTERS_FIRST = false.
+Proof. vm_compute. reflexivity. Qed.
+
 Lemma storage_size_pos : 0 < STORAGE_SIZE.
 Proof. vm_compute. lia. Qed.
 
